@@ -192,6 +192,15 @@ class CallGraph:
                         if r and r[0] == "func":
                             out.append(r[1])
                 return out
+        # loader = _load_registry.get(tag); loader(stream)
+        if isinstance(fn, ast.Name):
+            for n in A.walk(f.node):
+                if isinstance(n, ast.Assign) and len(n.targets) == 1 and isinstance(n.targets[0], ast.Name) \
+                        and n.targets[0].id == fn.id and isinstance(n.value, ast.Call) \
+                        and isinstance(n.value.func, ast.Attribute) and n.value.func.attr == "get" \
+                        and A.dotted(n.value.func.value) in ("_dump_registry", "_load_registry"):
+                    fake = ast.Call(func=n.value, args=call.args, keywords=[])
+                    return self._registry(f, fake)
         # getattr(self, "cmd_%s" % ...)
         return None
 
